@@ -33,6 +33,8 @@ func runC09(c *Ctx, r *Report) {
 	importRules(c, r, "C11", []string{"R-C11.1", "R-C11.2", "R-C11.6"}, "R-C09.7")
 	r.Doc("R-C09.12", "the clock a writer stamps its entries with is its own key and a time above its heads (adopted from C04: two writers stamping with one clock id produce ties, and a rebuilt log then orders them by block arrival)")
 	importRules(c, r, "C04", []string{"R-C04.1", "R-C04.2"}, "R-C09.12")
+	r.Doc("R-C09.13", "the codec objects the fetch workers share while rebuilding a log are concurrency-safe (adopted from C18: a stateful unmarshaller shared by workers mixes up or drops the opened links, and the rebuilt log misses what was only reachable through them)")
+	importRules(c, r, "C18", []string{"R-C18.7"}, "R-C09.13", 0)
 	r.Doc("R-C09.8", "the entry reader refuses a block only when reading or decoding it failed: no extra acceptance test on the decoded entry (whatever Append wrote must load again)")
 	// the heads of the rebuilt log: fetched entries whose hash equals a manifest head
 	{
